@@ -33,8 +33,9 @@ CHECKS = {
    note=BASE_NOTE + "Also proved by composition (Proofs/ParseCompose.v): what _parse_constraint builds from a comma set of range-like clauses "
         "and from '||' groups means the conjunction / disjunction of the clause memberships on every regular candidate; and (Proofs/ClauseText.v) "
         "what parse_single_constraint builds from the TEXT of a clause '>=V', '<=V', '>V', '<V', '==V', 'V', '!=V' for every version literal in normal form "
-        "(followed through the five patterns the parser tries in order). Not theorems (correspondence + reference oracle only): wildcard clauses, blanks "
-        "and upper case inside a clause, comma sets containing a union-valued clause.",
+        "(followed through the five patterns the parser tries in order), and the wildcard clause '==R.*' from its text to the set it admits (every candidate "
+        "of epoch 0 whose zero-padded release starts with R). Not theorems (correspondence + reference oracle only): negated wildcards as sets, blanks "
+        "and upper case inside a clause, comma sets containing a union-valued clause. Known finding D46 (local lower bound meeting its public version).",
    technique="Coq proof over an executable model + differential correspondence + reference oracle (packaging)"),
  "C05": dict(
    text="Coq theorems: on regular probes VersionRange.allows/Version.allows are plain interval membership; exact meaning of "
@@ -67,13 +68,15 @@ CHECKS = {
    text="Coq theorems: next_major/next_minor/next_patch/next_breaking return final releases strictly greater than V (any "
         "well-formed V); ^V, ~V and ~=V admit V and reject their upper bound and every pre-release/dev release of it, and these ranges are "
         "what parse_single_constraint builds from the text '^V', '~V', '~=V' for every version literal in normal form (Proofs/ClauseText.v); every "
-        "single clause and every version round-trips through its text (C04_clause_text, C03_text_roundtrip). The text round trip of comma sets, unions, "
-        "wildcards and exclusions is decided by correspondence (str() of every parsed constraint "
+        "single clause and every version round-trips through its text (C04_clause_text, C03_text_roundtrip); what str() prints parses back to the very "
+        "same constraint for single versions, half-lines, bounded ranges, wildcard ranges, exclusions '!=V' and unions of those printed group by group "
+        "(bounds in normal form; the two re.split calls of _parse_constraint are followed through the printed text). The text round trip of negated "
+        "wildcards and of bounds whose text is not the normal form is decided by correspondence (str() of every parsed constraint "
         "and of every algebra result in C05's stream equals the model's printer output byte for byte) and by the oracle: "
         "re-parse and compare on regular probes, reference specifier syntax for single ranges/wildcards/exclusions, ~=V against "
         "the reference compatible-release clause.",
    design="8/C15",
-   note=BASE_NOTE + "Partial: the text round trip is a theorem for versions and single clauses only.",
+   note=BASE_NOTE + "Partial: the text round-trip theorems need bounds in normal form and, for unions, members in order and pairwise apart (decidable; counted at run time).",
    technique="Coq proof over an executable model + differential correspondence + oracle (re-parse, packaging)"),
 
  "C01": dict(
@@ -143,13 +146,13 @@ CHECKS = {
    text="Coq theorems: the re-implemented canonicalize_name is idempotent and insensitive to case, separator choice and separator runs "
         "(compared with packaging's function on every run); the PEP 508 text that base_pep_508_name prints for a registry dependency whose "
         "constraint is a single version, a half-line or a bounded range in normal form is read back by the requirement parser as the same name "
-        "and the same constraint (Model/Req.v models the registry fragment of pep508.lark by hand - NAME, extras, version specs - and the printer; "
+        "(and the same extras, when there are any) and the same constraint (Model/Req.v models the registry fragment of pep508.lark by hand - NAME, extras, version specs - and the printer; "
         "both are compared with Requirement(...) and base_pep_508_name on ~570 generated and damaged texts per quick run). The whole round trip "
         "dependency -> PEP 508 text -> dependency (name, extras, kind, URL/reference/subdirectory, constraint on probes, marker on environments), "
         "objects derived with with_features / without_features / with_constraint, and PEP 508-insignificant rewrites are judged on 600 generated "
         "requirements per quick run against packaging.requirements.",
    design="8/C10",
-   note=BASE_NOTE + "Partial: extras are not in the round-trip theorem; markers inside requirements, URL and VCS handling are not modelled (no theorem "
+   note=BASE_NOTE + "Partial: markers inside requirements, URL and VCS handling are not modelled (no theorem "
         "covers them). Known finding D40; D43 repaired.",
    technique="Coq proof (name normal form; registry text round trip over a hand model of the requirement lexer) + differential correspondence + round-trip oracle against packaging.requirements"),
  "C11": dict(
